@@ -304,6 +304,15 @@ class Built:
                 uterm = case.get('forall_expr')
                 universal = self.term(uterm) if uterm else self.vars[u]
                 conds.append(for_all(universal, body[0] if len(body) == 1 else and_(*body)))
+            if case.get('foralls'):
+                fas = []
+                for us, fconds in case['foralls']:
+                    body = [self.cond(c) for c in fconds]
+                    node = body[0] if len(body) == 1 else and_(*body)
+                    for u in reversed(us):          # for_all(u0, for_all(u1, ... c))
+                        node = for_all(self.vars[u], node)
+                    fas.append(node)
+                conds = (fas + conds) if case.get('fafirst') else (conds + fas)
             if case.get('entity', len(self.sel) == 1):
                 desc = entity(self.sel[0], *conds)
             else:
